@@ -85,9 +85,22 @@ func (c *chain) twinLU(id string, open readerOpen) luRes {
 	return r
 }
 
-// lastUpdObs compares the node's answers with the twin's (head: the shadow's) and with the model, and applies
-// the oracle: a reader that is handed out answers the block of the slot's last write — also when that write
-// lies below the floor.
+// luItem is one ContractStorageLastUpdatedBlock answer of the node, waiting for the model's answer.
+type luItem struct {
+	how      string
+	b, lw    uint64
+	name     string
+	class    string
+	nodeV    uint64
+	nodeE    string
+	twinV    uint64
+	oldest   uint64
+	oldestOK bool
+}
+
+// lastUpdObs reads the node's answers and queues them; flushLU compares them with the twin's (head: the
+// shadow's) and with the model in one round trip, and applies the oracle: a reader that is handed out answers
+// the block of the slot's last write — also when that write lies below the floor.
 func (w *world) lastUpdObs(how string, b uint64, open readerOpen, twin luRes) {
 	node := readLU(open, w.node)
 	if node.err != "" || twin.err != "" {
@@ -106,27 +119,43 @@ func (w *world) lastUpdObs(how string, b uint64, open readerOpen, twin luRes) {
 		case node.errs[i] == "ok" && node.vals[i] != twin.vals[i]:
 			class = "lost"
 		}
-		line := fmt.Sprintf("lu %s %d %d", how, lw, b)
-		m, err := w.drv.Ask(line)
-		if err != nil {
-			w.harnessFailed("model driver: %v", err)
-			return
-		}
-		w.res.Compared(1)
+		w.luQ = append(w.luQ, luItem{how: how, b: b, lw: lw, name: k.name, class: class, nodeV: node.vals[i], nodeE: node.errs[i],
+			twinV: twin.vals[i], oldest: oldest, oldestOK: oerr == nil})
+	}
+}
+
+func (w *world) flushLU() {
+	q := w.luQ
+	w.luQ = nil
+	if len(q) == 0 || w.broken {
+		return
+	}
+	lines := make([]string, len(q))
+	for i, it := range q {
+		lines[i] = fmt.Sprintf("lu %s %d %d", it.how, it.lw, it.b)
+	}
+	outs, err := w.drv.AskAll(lines)
+	if err != nil || len(outs) != len(lines) {
+		w.harnessFailed("model driver: %v (%d of %d answers)", err, len(outs), len(lines))
+		return
+	}
+	w.res.Compared(len(q))
+	for i, it := range q {
+		m, class, how := outs[i], it.class, it.how
 		// a write in block 0 whose entry is gone reads as "0 = never written": the lost answer coincides with the right one
-		coincides := m == "lost" && lw == 0 && class == "ok"
+		coincides := m == "lost" && it.lw == 0 && class == "ok"
 		if m != class && !coincides {
-			w.mismatch("answer-lastUpdatedBlock-"+how, map[string]any{"slot": k.name, "block": b, "last_write": lw,
-				"situation": w.situation, "height": w.height}, m, fmt.Sprintf("%s (node %d, twin %d)", class, node.vals[i], twin.vals[i]))
+			w.mismatch("answer-lastUpdatedBlock-"+how, map[string]any{"slot": it.name, "block": it.b, "last_write": it.lw,
+				"situation": w.situation, "height": w.height}, m, fmt.Sprintf("%s (node %d, twin %d)", class, it.nodeV, it.twinV))
 		}
 		if class == "ok" {
 			continue
 		}
 		what := fmt.Sprintf("ContractStorageLastUpdatedBlock(0x1, %s slot) through the %s reader of block %d answers %d (%s); the slot was last written by block %d and the unpruned twin answers %d [head %d, oldest retained %d, %s backend]",
-			k.name, how, b, node.vals[i], node.errs[i], lw, twin.vals[i], w.height, oldest, map[bool]string{true: "legacy", false: "new"}[w.legacy()])
+			it.name, how, it.b, it.nodeV, it.nodeE, it.lw, it.twinV, w.height, it.oldest, map[bool]string{true: "legacy", false: "new"}[w.legacy()])
 		// the documented cause, and nothing else: legacy backend, the write is below the durable floor (its
 		// history entry is what the pruner / the migration deletes), an OLDER block (or 0 = never) is reported
-		if class == "lost" && w.legacy() && oerr == nil && lw < oldest && node.vals[i] < twin.vals[i] {
+		if class == "lost" && w.legacy() && it.oldestOK && it.lw < it.oldest && it.nodeV < it.twinV {
 			w.res.Hit("finding:last-update-block-lost-below-floor")
 			w.res.Violate(lib.Violation{Sig: "storage-last-update-block-lost-below-floor-" + how, What: what, Replay: w.replay()})
 			continue
